@@ -323,6 +323,7 @@ func DiscoverBus(p *Prog) *BusRoles {
 	r.NameFn = sp.Func("EventType")
 	need(r.PublishFn != nil, "func PublishContext")
 	need(r.NameFn != nil, "func EventType")
+	var invoker *ssa.Function
 	for _, f := range p.FuncsIn(PkgBus) {
 		if f.Parent() != nil {
 			continue
@@ -337,10 +338,10 @@ func DiscoverBus(p *Prog) *BusRoles {
 			for _, in := range b.Instrs {
 				switch in := in.(type) {
 				case *ssa.TypeAssert:
-					// dispatch function: type-switches on the handler field
+					// invoker: type-switches on the handler field
 					if t, fld, _, ok := fieldLoad(in.X); ok && r.RegT != nil && t == r.RegT.Obj().Name() && fld == r.RegHandler {
 						if _, isFn := in.AssertedType.Underlying().(*types.Signature); isFn {
-							r.DispatchFn = f
+							invoker = f
 						}
 					}
 				case ssa.CallInstruction:
@@ -350,6 +351,73 @@ func DiscoverBus(p *Prog) *BusRoles {
 					}
 				}
 			}
+		}
+	}
+	// dispatch function: the function called from PublishContext (or its closures)
+	// whose static call tree contains the invoker; this is the frame that owns the
+	// recover scope, the sequential lock and the observability pairing.
+	if invoker != nil && r.PublishFn != nil {
+		reach := map[*ssa.Function]bool{}
+		var reaches func(f *ssa.Function, d int) bool
+		reaches = func(f *ssa.Function, d int) bool {
+			if f == invoker {
+				return true
+			}
+			if d > 6 || f == nil {
+				return false
+			}
+			if v, ok := reach[f]; ok {
+				return v
+			}
+			reach[f] = false
+			res := false
+			var walk func(g *ssa.Function)
+			walk = func(g *ssa.Function) {
+				for _, b := range g.Blocks {
+					for _, in := range b.Instrs {
+						if ci, ok := in.(ssa.CallInstruction); ok {
+							if sc := ci.Common().StaticCallee(); sc != nil {
+								if o := sc.Origin(); o != nil {
+									sc = o
+								}
+								if PkgOf(sc) == PkgBus && sc != f && reaches(sc, d+1) {
+									res = true
+								}
+							}
+						}
+					}
+				}
+				for _, a := range g.AnonFuncs {
+					walk(a)
+				}
+			}
+			walk(f)
+			reach[f] = res
+			return res
+		}
+		var scan func(g *ssa.Function)
+		scan = func(g *ssa.Function) {
+			for _, b := range g.Blocks {
+				for _, in := range b.Instrs {
+					if ci, ok := in.(ssa.CallInstruction); ok {
+						if sc := ci.Common().StaticCallee(); sc != nil {
+							if o := sc.Origin(); o != nil {
+								sc = o
+							}
+							if PkgOf(sc) == PkgBus && sc.Parent() == nil && reaches(sc, 0) {
+								r.DispatchFn = sc
+							}
+						}
+					}
+				}
+			}
+			for _, a := range g.AnonFuncs {
+				scan(a)
+			}
+		}
+		scan(r.PublishFn)
+		if r.DispatchFn == nil {
+			r.DispatchFn = invoker
 		}
 	}
 	if r.UpRegT != nil {
